@@ -209,3 +209,7 @@ fn monotonic_timestamp_generator_is_monotonic_with_concurrency() {
         "Colliding values between threads"
     );
 }
+
+// Verification hook (inert unless built by `cargo kani`, which sets --cfg kani).
+#[cfg(kani)]
+mod verif_kani;
